@@ -253,3 +253,17 @@ Definition view_of (g : N) (st : store) : view :=
   | [] => None
   | ns => Some (sort_nodes (map vnode_of ns), sort_edges (vedges_of ns (s_edges st)))
   end.
+
+(* ---- decidable store invariant used by the frame theorems (Proofs/Cbm14Frame.v): internal ids unique and
+   below start_id, and no connection leaves graph g ---- *)
+Definition memN (x : N) (l : list N) : bool := existsb (N.eqb x) l.
+Definition touches (I : list N) (e : edge) : bool := memN (e_a e) I || memN (e_b e) I.
+Definition gints (g : N) (st : store) : list N := map n_int (of_gid g st).
+Fixpoint nodupN (l : list N) : bool :=
+  match l with [] => true | x :: r => negb (memN x r) && nodupN r end.
+Definition goodb (g : N) (st : store) : bool :=
+  nodupN (map n_int (s_nodes st)) &&
+  forallb (fun n => n_int n <? s_next st) (s_nodes st) &&
+  forallb (fun e => (e_a e <? s_next st) && (e_b e <? s_next st)) (s_edges st) &&
+  forallb (fun e => implb (touches (gints g st) e) (memN (e_a e) (gints g st) && memN (e_b e) (gints g st)))
+          (s_edges st).
